@@ -9,5 +9,7 @@ from jaxtyping import Array
 def try_cast(x: Any) -> Array | None:
     try:
         return jnp.asarray(x)
-    except TypeError:
+    except (TypeError, ValueError, OverflowError):
+        # None and ragged sequences raise ValueError, Python integers beyond the
+        # default integer width raise OverflowError: none of them is castable.
         return None
